@@ -35,6 +35,15 @@ ASSUME = {
         "arbitrary-byte coverage-guided fuzzing is NOT done by this check (stated limit, DESIGN section 9)",
     ],
     "C20": [],
+    "C09": [
+        "the muxer is written in real time by one goroutine (steps of the C01 generators without parameter changes, constant frame rate); "
+        "the client is attached once three segments are listed (earlier it legitimately refuses) plus a random delay",
+        "SegmentMinDuration >= 600 ms so that TARGETDURATION >= 1; SegmentCount large enough that no segment expires during the run "
+        "(the segment structure is read back from the muxer after the run)",
+        "Low-Latency runs use a wall clock that is linear in media time (the date of an open segment is extrapolated by the client from "
+        "the previous one); the other variants use drifting / jumping wall clocks",
+        "tolerances as stated by the property: +-1 tick, 1 ms (+2 ticks) for AbsoluteTime",
+    ],
 }
 
 T0 = 0  # abs times are logged in microseconds since the harness' t0
@@ -566,6 +575,223 @@ def annotate(run):
 
 
 # ----------------------------------------------------------------------------------------------------------------
+# C09: the real Client reading the real Muxer
+
+E2E_TRACKS = {
+    "mpegts": [["h264"], ["h264", "aac"], ["aac"], ["aac", "h264"]],
+    "fmp4": [["V"], ["V", "aac"], ["V", "opus"], ["aac"], ["opus"], ["V", "aac", "opus"], ["aac", "V"], ["aac", "aac"]],
+    "ll": [["V"], ["V", "aac"], ["V", "opus"], ["aac"], ["opus"], ["V", "aac", "opus"], ["aac", "V"], ["opus", "aac"]],
+}
+
+
+def e2e_scenarios(rnd, tier):
+    from props import muxgen
+    scs = []
+    reps = 1 if tier == "quick" else 6
+    k = 0
+    for rep in range(reps):
+        for variant in ("mpegts", "fmp4", "ll"):
+            for tr in E2E_TRACKS[variant]:
+                k += 1
+                cfg = muxgen.make_cfg(rnd, variant, tracks=list(tr), seg_min_ms=rnd.choice([600, 700, 900]), part_min_ms=rnd.choice([100, 150, 200]),
+                                      seg_count=40, disk=False, query="")
+                for t in cfg["tracks"]:
+                    if t["codec"] in ("aac", "opus") and "name" not in t and rnd.random() < 0.5:
+                        t["name"], t["lang"] = "n%d" % k, rnd.choice(["en", "de", "it"])
+                    if t["codec"] in ("aac", "opus") and rnd.random() < 0.3:
+                        t["def"] = True
+                audio_only = all(t["codec"] in ("aac", "opus") for t in cfg["tracks"])
+                if variant == "mpegts":
+                    start = rnd.choice([0, 1, 37, 1000, 95443 - 2])       # the last one wraps the 33-bit clock during the run
+                else:
+                    start = rnd.choice([0, -3, 5, 1234.5, 3600])
+                steps = muxgen.gen_steps(rnd, cfg, 2500 if (variant == "mpegts" and audio_only) else 900, start_s=start, irregular=False, gop=rnd.choice([10, 15]), changes=0, vdur=3000)
+                if audio_only:
+                    # several access units per call, so that segment boundaries fall inside a call
+                    for st_ in steps:
+                        if cfg["tracks"][st_["t"]]["codec"] == "aac":
+                            pass
+                tmin = min(st_["dts"] / muxgen.rate_of(cfg["tracks"][st_["t"]]) for st_ in steps)
+                total = 5.0 if tier == "quick" else rnd.choice([5.0, 7.0])
+                if variant == "mpegts" and audio_only:
+                    total = 16.0      # audio-only MPEG-TS segments are cut every 100 writes at the earliest (several seconds)
+                steps = [st_ for st_ in steps if st_["dts"] / muxgen.rate_of(cfg["tracks"][st_["t"]]) - tmin <= total]
+                linear = variant == "ll"
+                scs.append({"cfg": cfg, "steps": steps, "entry": "media" if (k % 4 == 0) else "multi",
+                            "attachMs": rnd.choice([0, 30, 120, 300]),
+                            "driftPPM": 0 if linear else rnd.choice([0, 8000, -5000, 20000]),
+                            "jumpMs": 0 if linear else rnd.choice([0, 7, -4, 40]), "jumpEach": 500,
+                            "tailMs": 500, "tag": "e2e-%s-%s-%d" % (variant, "+".join(t["codec"] for t in cfg["tracks"]), k)})
+    # the recorded finding: a Low-Latency stream whose segments are all shorter than 0.5 s (TARGETDURATION 0, CAN-SKIP-UNTIL 0)
+    cfg = muxgen.make_cfg(rnd, "ll", tracks=["h264", "aac"], seg_min_ms=200, part_min_ms=50, seg_count=40, disk=False, query="")
+    steps = muxgen.gen_steps(rnd, cfg, 600, start_s=0, irregular=False, gop=5, changes=0, vdur=3000)
+    tmin = min(st_["dts"] / muxgen.rate_of(cfg["tracks"][st_["t"]]) for st_ in steps)
+    steps = [st_ for st_ in steps if st_["dts"] / muxgen.rate_of(cfg["tracks"][st_["t"]]) - tmin <= 3.0]
+    scs.append({"cfg": cfg, "steps": steps, "entry": "multi", "attachMs": 0, "driftPPM": 0, "jumpMs": 0, "jumpEach": 500, "tailMs": 300,
+                "tag": "e2e-ll-td0"})
+    scs.sort(key=lambda sc: -len(sc["steps"]))
+    return scs
+
+
+def lltd0_finding(trace, v):
+    run, hit = [], None
+    with open(trace) as f:
+        for ln in f:
+            if '"ev":"reset"' in ln:
+                run = []
+            run.append(ln)
+            if '"ev":"end"' in ln and '"tag":"e2e-ll-td0"' in run[0]:
+                hit = run
+                break
+    if not hit:
+        return 0
+    os.makedirs(vlib.REPLAYS, exist_ok=True)
+    rp = os.path.join(vlib.REPLAYS, "C09-ll-td0.ndjson")
+    with open(rp, "w") as f:
+        f.writelines(hit)
+    r, _ = vlib.validate_trace("ClientMux", cfg_c09(strict=True), rp)
+    if r.kind == "invariant":
+        v.violation("a Client cannot follow a Low-Latency Muxer whose segments are all shorter than 0.5 s: TARGETDURATION is 0, so "
+                    "CAN-SKIP-UNTIL is 0 and the delta update requested with _HLS_skip=YES skips every segment; the playlist then has no "
+                    "EXTINF and the client's decoder cannot classify it (EOF)", rp, signature="ll-td0-delta-skips-everything")
+        return 1
+    return 0
+
+
+def run_e2e(binary, scs, work, tag):
+    nsh = min(vlib.NCPU, len(scs))
+    shards = [scs[i::nsh] for i in range(nsh)]
+
+    def one(i):
+        sp = os.path.join(work, "%s_s%d.json" % (tag, i))
+        tp = os.path.join(work, "%s_t%d.ndjson" % (tag, i))
+        with open(sp, "w") as f:
+            json.dump(shards[i], f)
+        rc, out, dt = vlib.drive(binary, ["e2e-run", "-script", sp, "-out", tp], timeout=1800)
+        return rc, out, tp
+
+    with ThreadPoolExecutor(max_workers=nsh) as ex:
+        res = list(ex.map(one, range(nsh)))
+    out_path = os.path.join(work, tag + ".ndjson")
+    crashes = []
+    with open(out_path, "w") as g:
+        for rc, out, tp in res:
+            if rc != 0:
+                if "panic" in out or "fatal error" in out:
+                    crashes.append(out[-6000:])
+                else:
+                    raise vlib.Inconclusive("e2e-run failed: " + out[-2000:])
+            if os.path.exists(tp):
+                for run in complete_runs(tp):
+                    for d in annotate_e2e(run):
+                        g.write(json.dumps(d, separators=(",", ":")) + "\n")
+    return out_path, crashes
+
+
+def annotate_e2e(run):
+    reset = run[0]
+    if any(d["ev"] == "harnesserr" for d in run):
+        vlib.log("[e2e] harness error in %s: %s" % (reset["sc"].get("tag"), [d.get("msg") for d in run if d["ev"] == "harnesserr"]))
+        return run
+    variant = reset["variant"]
+    tracks = reset["tracks"]
+    nt = len(tracks)
+    lead = reset["lead"]
+    lead_stream = reset["leadStream"]
+    entry = reset["sc"].get("entry", "multi")
+    w = {}
+    segs = {}
+    mv = None
+    for d in run:
+        if d["ev"] == "wr" and d["ok"] == 1:
+            w[(d["t"], d["id"])] = (d["dts"], d["ntp"])
+        elif d["ev"] == "sg":
+            segs.setdefault(d["s"], {})[d["msn"]] = {u["t"]: (u["lo"], u["hi"]) for u in d["u"]}
+        elif d["ev"] == "mv":
+            mv = d
+
+    def stream_of(t):
+        return 1 if variant == "mpegts" else t
+
+    def crate(t):
+        return 90000 if variant == "mpegts" else tracks[t - 1]["rate"]
+
+    # expected client tracks: the leading stream first, then the audio renditions in the order advertised
+    order = []
+    if variant == "mpegts":
+        order = [(t, "", "", 0) for t in range(1, nt + 1)]
+    else:
+        order = [(lead, "", "", 0)]
+        if entry == "multi" and mv is not None:
+            for rd in mv["renditions"]:
+                if not rd["uri"]:
+                    continue
+                sid = rd["uri"].split("_stream")[0]
+                digits = "".join(c for c in sid if c.isdigit())
+                if digits:
+                    order.append((int(digits), rd["name"], rd["lang"], rd["def"]))
+    exp = [{"codec": tracks[t - 1]["codec"], "rate": crate(t), "name": n, "lang": lg, "def": df, "params": 1} for (t, n, lg, df) in order]
+    emt = [t for (t, _, _, _) in order]
+    origin = None
+    for d in run:
+        if d["ev"] == "data" and d["mt"] == lead and (lead, d["id"]) in w:
+            origin = w[(lead, d["id"])][0]
+            break
+    rl = tracks[lead - 1]["rate"]
+    unchecked_abs = 0
+    for d in run:
+        if d["ev"] == "tracks":
+            if variant == "mpegts":
+                for x in d["list"]:
+                    x["params"] = 1          # codec parameters are claimed for the fMP4 variants only
+            d["exp"] = exp
+        elif d["ev"] == "data":
+            d.update({"emt": 0, "dd": 0, "dp": 0, "da": 0})
+            ct = d["t"]
+            if 1 <= ct <= len(emt):
+                d["emt"] = emt[ct - 1]
+            key = (d["mt"], d["id"])
+            if key not in w or origin is None:
+                d["dd"] = 1
+                continue
+            if d.get("sub", 0) > 0:
+                continue        # not the first unit of its callback: the client reports no time of its own for it
+            t = d["mt"]
+            rt = tracks[t - 1]["rate"]
+            rc = crate(t)
+            wd, wn = w[key]
+            exact = Fraction(wd * rc, rt) - Fraction(origin * rc, rl)
+            err = Fraction(d["dts"]) - exact
+            d["dd"] = 0 if abs(err) <= 1 else (clip(round(err)) or 1)
+            d["dp"] = clip(d["pts"] - d["dts"])
+            if d["abs"] >= 0:
+                msn = None
+                for m, per in segs.get(stream_of(t), {}).items():
+                    if t in per and per[t][0] <= d["id"] <= per[t][1]:
+                        msn = m
+                        break
+                anchor = None
+                if msn is not None:
+                    lo = segs.get(lead_stream, {}).get(msn, {}).get(lead)
+                    if lo and (lead, lo[0]) in w:
+                        anchor = w[(lead, lo[0])]
+                if anchor is None:
+                    unchecked_abs += 1
+                else:
+                    want = anchor[1] + (Fraction(wd, rt) - Fraction(anchor[0], rl)) * 1000000
+                    e = d["abs"] - want
+                    tol = 1000 + Fraction(2 * 1000000, rt) + 2
+                    d["da"] = 0 if abs(e) <= tol else (clip(round(e)) or 1)
+        elif d["ev"] == "wait":
+            es = d["err"]
+            d["errc"] = "terminated" if es == "terminated" else "missing" if "next segment not found" in es else "other"
+            d["lltd0"] = 1 if "td0" in reset["sc"].get("tag", "") else 0
+            d["expd"] = [1 if t in emt else 0 for t in range(1, nt + 1)]
+            d["uncheckedAbs"] = unchecked_abs
+    return run
+
+
+# ----------------------------------------------------------------------------------------------------------------
 
 INVS = {"C10": "C10_Delivery", "C11": "C11_Fetching", "C12": "C12_Termination", "C13": "C13_Robustness", "C20": "C20_LookAhead"}
 
@@ -644,6 +870,67 @@ def crash_violation(v, pid, sc, out, tag):
                 signature="crash:%s" % (where.group(2) if where else "?"))
 
 
+def cfg_c09(strict=False):
+    name = "Trace_clientmux%s.cfg" % ("_strict" if strict else "")
+    with open(os.path.join(vlib.SPEC, name), "w") as f:
+        f.write("SPECIFICATION TraceSpec\nCONSTANTS\n  TolerateLLTD0 = %s\nINVARIANTS C09_Reproduces\nPOSTCONDITION Post\n"
+                "CHECK_DEADLOCK FALSE\n" % ("FALSE" if strict else "TRUE"))
+    return name
+
+
+def validate_c09(trace, v, tag):
+    tc = vlib.validate_trace_parallel("ClientMux", cfg_c09(), trace, "C09", tag=tag, timeout=1200)
+    for inv, rp, detail in tc.failures:
+        r, _ = vlib.validate_trace("ClientMux", cfg_c09(), rp)
+        wy = r.last_state.get("why", "").strip('"')
+        try:
+            scn = json.loads(open(rp).readline())["sc"]["tag"]
+        except Exception:
+            scn = "?"
+        v.violation("C09_Reproduces: clause %s fails on a run of the real Client against the real Muxer (%s) scenario=%s" % (wy, detail, scn), rp,
+                    signature="%s:%s" % (wy, scn))
+    if tc.incomplete:
+        raise vlib.Inconclusive("e2e trace not consumed:\n" + "\n".join(tc.incomplete)[:3000])
+    return tc
+
+
+def run_c09(binary, tier, v, work, rnd, t0):
+    scs = e2e_scenarios(rnd, tier)
+    trace, crashes = run_e2e(binary, scs, work, "e2e")
+    for out in crashes:
+        os.makedirs(vlib.REPLAYS, exist_ok=True)
+        rp = os.path.join(vlib.REPLAYS, "C09-seed%d-crash.txt" % vlib.seed())
+        open(rp, "w").write(out)
+        v.violation("the process crashed while a Client was reading a Muxer: " + (re.search(r"(panic: [^\n]*)", out) or [0, "fatal"])[1], rp)
+    tc = validate_c09(trace, v, "e2e")
+    td0 = lltd0_finding(trace, v)
+    ndata = nwr = herr = 0
+    ends = {}
+    samples = []
+    with open(trace) as f:
+        for ln in f:
+            if '"ev":"data"' in ln:
+                ndata += 1
+            elif '"ev":"wr"' in ln:
+                nwr += 1
+            elif '"ev":"harnesserr"' in ln:
+                herr += 1
+            elif '"ev":"wait"' in ln:
+                d = json.loads(ln)
+                ends[d["errc"]] = ends.get(d["errc"], 0) + 1
+                if len(samples) < 3:
+                    samples.append(d)
+    if herr:
+        raise vlib.Inconclusive("%d end-to-end runs failed in the harness" % herr)
+    cov = {"states": tc.states, "transitions": tc.lines, "traces_validated_against_impl": tc.traces, "scenarios": len(scs),
+           "units_written": nwr, "units_delivered": ndata, "endings": ends, "ll_td0_finding_reproduced": td0, "exhaustive": False, "samples": samples,
+           "variants": sorted(set(sc["cfg"]["variant"] for sc in scs)),
+           "track_sets": sorted(set("+".join(t["codec"] for t in sc["cfg"]["tracks"]) for sc in scs))}
+    rc = v.finish()
+    vlib.write_evidence("C09", tier, "model_checking", cov, ASSUME["C09"], time.time() - t0, len(v.violations))
+    return rc
+
+
 def run(pid, tier, replay):
     t0 = time.time()
     v = vlib.Verdict(pid)
@@ -652,6 +939,9 @@ def run(pid, tier, replay):
     rnd = random.Random(vlib.seed() * 131 + int(pid[1:]))
     cov = {}
     try:
+        if replay and pid == "C09":
+            validate_c09(replay, v, "replay")
+            return v.finish()
         if replay:
             if replay.endswith(".json"):
                 scs = json.load(open(replay))
@@ -681,6 +971,8 @@ def run(pid, tier, replay):
             scs, design = life_scenarios(tier)
         elif pid == "C13":
             scs = fault_scenarios(binary, tier)
+        elif pid == "C09":
+            return run_c09(binary, tier, v, work, rnd, t0)
         else:
             raise vlib.Inconclusive("no check for " + pid)
         trace, crashes = run_scenarios(binary, scs, work, pid.lower())
